@@ -180,6 +180,47 @@ impl Monitor for C15 {
                 });
             }
         }
+        // (a'') literals of every shape (leading zeros, long fractions, many significant digits, either
+        // side of the point empty), alone and in a small expression: both evaluators must read the same
+        // double (seeded change C18-r8: a fast path for literals of few significant digits in
+        // eval_number only, wrong beyond 22 fractional digits)
+        {
+            let n = ctx.tier.pick(30_000u64, 600_000);
+            for i in 0..n {
+                if !ctx.mine() {
+                    continue;
+                }
+                let mut rng = ctx.rng("literal", i);
+                let digits = |rng: &mut Rng, n: usize| -> String { (0..n).map(|_| char::from(b'0' + rng.below(10) as u8)).collect() };
+                let wide = rng.chance(1, 2);
+                let sig = 1 + rng.below(if wide { 20 } else { 6 });
+                let (n1, n2, n3, n4) = (rng.below(45), rng.below(30), rng.below(15), rng.below(40));
+                let lit = match rng.below(5) {
+                    // 0.000…0ddd
+                    0 => format!("0.{}{}", "0".repeat(n1), digits(&mut rng, sig)),
+                    // .000ddd
+                    1 => format!(".{}{}", "0".repeat(n2), digits(&mut rng, sig)),
+                    // ddd.ddd
+                    2 => format!("{}.{}", digits(&mut rng, 1 + n3), digits(&mut rng, n4)),
+                    // 000ddd.ddd000
+                    3 => format!("{}{}.{}{}", "0".repeat(n3 % 4), digits(&mut rng, 1 + n3 % 8), digits(&mut rng, n4 % 25), "0".repeat(n2)),
+                    // ddd.
+                    _ => format!("{}.", digits(&mut rng, 1 + n3)),
+                };
+                let s = match rng.below(4) {
+                    0 => format!("{}*3", lit),
+                    1 => format!("1+{}", lit),
+                    _ => lit,
+                };
+                ctx.check(&Case::pair(Ev::F64, "f64-vs-number", &s, Val::F(0.0), &s, Val::NI(0)), &|c, st| {
+                    let v = self.judge(c, st);
+                    if let Verdict::Pass { .. } = v {
+                        st.inc("agree.literals");
+                    }
+                    v
+                });
+            }
+        }
         // (b) shared f64 grammar: eval_number's numeric value equals eval_f64's result
         {
             let leaf = |rng: &mut Rng| -> Ast {
